@@ -39,7 +39,7 @@ CLAIMED = {
    technique="reference-model monitor (exact arithmetic) + hook-widened interleavings with a quiescence oracle + race detector"),
  "C17": dict(engine="kvmodel", level="exploration",
    text="Per committed request the reference model yields the expected notification batch; a subscriber reading through GetNotifications is cut and resumed with the last offset it saw at seeded points (one across a restart into a new term), with a hook widening the reader's check-then-wait window; order, exactly-one-batch-per-request, content, no internal keys, no loss/duplicate across resumptions are checked, and a stalled delivery is confirmed by logical evidence (it resumes only when one more request is committed). Trimming is exercised on a bare DB with a mocked clock: every batch inside retention must still be delivered.",
-   note="RF=1 (nothing uncommitted exists here; delivery of uncommitted requests and resume on a different node belong to the replication engines). Delivery of the last batch is judged at quiescence.",
+   note="The RF=1 parts cannot show uncommitted requests; a fourth part (C17.repl, three real nodes) covers them: a subscriber starting 'now' while appended requests are uncommitted must not be positioned beyond the commit offset, nothing above it is delivered meanwhile, and subscribers resume on another node after an election without loss or duplicate. Delivery of the last batch is judged at quiescence.",
    technique="reference-model monitor over the notification stream + hook-widened interleaving + resumption oracle"),
  "C11": dict(engine="kvorder", level="exploration",
    text="Comparator laws, agreement with an independent span-list implementation and the engine contract (Separator in [a,b), Successor >= a, AbbreviatedKey consistent, all in slash order) on generated tuples from an alphabet built around '/'; then real Pebble-backed KVs are loaded with data sets spanning tens of 64KiB blocks and every stored key / floor / ceiling / lower / higher / range scan is compared with a reference sorted by the independent order, before and after flushes and overwrites.",
@@ -95,7 +95,7 @@ ENGINES = [
   "kind_free_text": "real public client library over loopback gRPC against a deterministic fake OxiaClient service (lib/fakeoxia)"},
  {"name": "coord", "path": "harness/engines/coord", "serves_properties": ["C01", "C02", "C05"],
   "kind_free_text": "real coordinator ShardController + StatusResource over harness-owned metadata store and coordination RPCs (lib/ctl), real storage nodes (lib/replcluster); real file metadata provider under concurrent observers"},
- {"name": "repl", "path": "harness/engines/repl", "serves_properties": ["C03", "C04", "C06", "C07", "C08"],
+ {"name": "repl", "path": "harness/engines/repl", "serves_properties": ["C03", "C04", "C06", "C07", "C08", "C17"],
   "kind_free_text": "real leader/follower controllers through the real ShardsDirector, wired by harness-owned in-memory replication streams; harness plays coordinator"},
  {"name": "kvorder", "path": "harness/engines/kvorder", "serves_properties": ["C11"],
   "kind_free_text": "key-order laws and Pebble-backed KV vs sorted reference"},
